@@ -88,6 +88,12 @@ def gen_fleet(chk, n, first_frames=("body",)):
     for k in range(n):
         ac = gen.gen_aircraft(rng, chk.hist, max_wings=2, N=rng.randint(3, 4), sides=("both", "both", "right"))
         st = gen.gen_state(rng, chk.hist, ang=5.0, pose=True, rate_frames=first_frames if k == 0 else ("body",))
+        if k == 0 and first_frames != ("body",):
+            # rates in stability / wind axes really given, at an angle of attack that separates those axes from the body axes
+            st["angular_rates"] = [0.08, -0.03, 0.05]
+            st.setdefault("angular_rate_frame", rng.choice(first_frames))
+            if not isinstance(st["velocity"], list):
+                st["alpha"], st["beta"] = 6.0, 3.0
         st["position"] = [rng.uniform(-15, 15), k * rng.uniform(9, 16) - 10, rng.uniform(-8, 8) - 500.0]
         acs.append((("uav", "uav_2", "uav_21")[k], ac, st, gen.gen_controls(rng, ac)))      # names contained in one another on purpose
     return acs
